@@ -4,6 +4,7 @@ import CfbVerif.Spec.Check
 import CfbVerif.Props.C15
 import CfbVerif.Phys.ApiInv
 import CfbVerif.Props.C01
+import CfbVerif.Phys.NoShare
 /-!
 # C03 — every produced image is a well-formed MS-CFB file by an independent checker
 
@@ -27,6 +28,16 @@ Proved here are the allocator facts behind "at most one chain" and "marked as su
   the first one beyond the file, the file grows by exactly one sector and the invariant is kept;
 * `C03_fat_sector_marked`: a FAT sector added by `append_fat_sector` is entered in the DIFAT and
   marked FATSECT in the FAT;
+* `C03_no_shared_sector` (from `Phys/NoShare.lean`): after **every** history of stream-level
+  operations (`allocate_dir_entry`, create, `write_data_to_stream`, `resize_stream`, remove, reopen —
+  the operations `physOf` composes, with the stream lengths carried along) on a fresh file, no two
+  FAT cells point at the same sector, no cell points at a FREE sector, and the first sectors of the
+  directory, the MiniFAT, the mini stream and of every stream of at least 4096 bytes are distinct,
+  in use and pointed at by nothing; `C03_chains_disjoint`: hence the chains that start there are
+  pairwise disjoint and never enter free space — "every sector belongs to at most one chain".
+  What is *not* proved is the step from the API to that machine: that the lengths `physOf` hands to
+  the stream operations are the directory's stream lengths (lock-stepped, and judged by
+  `Spec.check` on every image of the campaign);
 * search-tree order and red-red freedom of every sibling tree after every history are theorems of
   the directory model (`Props.C01.C01_reachable`, listed among this property's obligations).
 -/
@@ -134,5 +145,37 @@ theorem C03_fat_sector_marked {p p' : P} (h : appendFatSector p = .ok p') :
               simp
         · cases h
           refine ⟨by rw [hp2.2]; exact List.take_of_length_le (by simp), by rw [hp2.1]; simp⟩
+
+/-- **no sector is shared**, for every history of the stream-level operations -/
+theorem C03_no_shared_sector (v4 : Bool) (ops : List GOp) :
+    let g := grun { p := Phys.create v4, L := fun _ => 0 } ops
+    g.p.fat.size ≤ MAXREG + 1 →
+    Inv g.p ∧ NSH g.p.fat (heads g.p g.L) :=
+  fun hb => let j := noShare_reachable v4 ops hb; ⟨j.inv, j.ns⟩
+
+/-- **chains are pairwise disjoint and stay out of free space**, in every such state -/
+theorem C03_chains_disjoint (v4 : Bool) (ops : List GOp) :
+    let g := grun { p := Phys.create v4, L := fun _ => 0 } ops
+    g.p.fat.size ≤ MAXREG + 1 →
+    ∀ h1 ∈ heads g.p g.L, ∀ h2 ∈ heads g.p g.L, ∀ x,
+      Reach g.p.fat h1 x → (Reach g.p.fat h2 x → h1 = h2) ∧ (∃ w, g.p.fat[x]? = some w ∧ w ≠ FREE) := by
+  intro g hb h1 m1 h2 m2 x r1
+  have n := (noShare_reachable v4 ops hb).ns
+  exact ⟨fun r2 => n.disjoint m1 m2 r1 r2, n.reach_used m1 r1⟩
+
+/-- a handle call's store operations keep that state when they start from the stream's length -/
+theorem C03_handle_call_keeps (slot : Nat) (log : List StoreOp) {p p' : P} {L : Nat → Nat}
+    (h : applyLogPhys p slot (L slot) log = .ok p') (j : JJ p L) (hb : p'.fat.size ≤ MAXREG + 1) :
+    JJ p' (upd L slot (lenAfter (L slot) log)) := jj_applyLogPhys slot log h j hb
+
+/-- the hypotheses are met by a history that creates three streams (regular, regular, mini), frees
+one and reuses its sectors: heads are the directory (1), the mini stream (10), the MiniFAT (11) and
+stream 2 (12) -/
+def exOps : List GOp :=
+  [.create 1, .resize 1 5000, .create 2, .resize 2 9000, .free 1, .create 3, .resize 3 100]
+
+example : (grun { p := Phys.create false, L := fun _ => 0 } exOps).p.fat.size ≤ MAXREG + 1 := by decide
+example : heads (grun { p := Phys.create false, L := fun _ => 0 } exOps).p
+    (grun { p := Phys.create false, L := fun _ => 0 } exOps).L = [1, 11, 10, 12] := by decide
 
 end CfbVerif.Props.C03
